@@ -41,6 +41,8 @@ def t_wal(ctx):
     topo = ctx.cfg.get('topo', 'nested')       # nested | forward
     faults = ctx.cfg.get('faults', True)
     d = ctx.real('d', 0, Exact('1/5'))
+    teardown = ctx.cfg.get('teardown', False)
+    io_d = ctx.real('io_d', 0, Exact('1/5')) if teardown else None     # file I/O takes time
     ctx.new_loop(horizon=5)
     tmp = os.path.join(tempfile.gettempdir(), 'vfw_wal')
     wal = {n: os.path.join(tmp, f'{n}.jsonl') for n in ('A', 'B')}
@@ -66,6 +68,8 @@ def t_wal(ctx):
             return False
 
         async def write(self, s):
+            if io_d is not None:
+                await asyncio.sleep(io_d)
             o = choice('write')
             ctx.rec('WAL_WRITE', bus=bus_of_path.get(self.path), outcome=o, text=s)
             if o == 'fail':
@@ -126,6 +130,18 @@ def t_wal(ctx):
             if ctx.cfg.get('unserialisable'):
                 u = m.dispatch(a, ctx.ev(PayloadEvent, 'U1', event_timeout=30.0, blob=object()))
             await m.wait(p)
+            if teardown:
+                # script-style use: `await bus.dispatch(e)` is the last thing main() does; asyncio.run() then cancels every other task
+                st['complete_at_teardown'] = [lab for lab, e in ctx.events.items() if e.event_completed_signal is not None and e.event_completed_signal.is_set()]
+                ctx.rec('TEARDOWN')
+                me = asyncio.current_task()
+                others = [t for t in asyncio.all_tasks() if t is not me]
+                for t in others:
+                    t.cancel()
+                await asyncio.gather(*others, return_exceptions=True)
+                st['done'] = True
+                ctx.rec('MAINEND')
+                return
             for n, bb in buses.items():
                 await bb.wait_until_idle()
             await asyncio.sleep(Exact('1/2'))
@@ -136,6 +152,15 @@ def t_wal(ctx):
     finally:
         svc.anyio.open_file = saved
     tr = Trace(ctx.records)
+    if teardown:
+        # every event that was reported complete before the loop was torn down has its line (the line is written before completion)
+        ctx.check('C17.terminates', bool(fin))
+        for lab in st.get('complete_at_teardown', []):
+            ws = [r for r in tr.recs if r.kind == 'WAL_WRITE' and r.bus == 'A' and r.outcome == 'ok'
+                  and json.loads(r.text).get('event_id') == ctx.events[lab].event_id]
+            ctx.check('C17.one_line_per_processed', len(ws) == 1, ev=lab, lines=len(ws), why='event reported complete, loop torn down, line missing')
+            ctx.witness('complete at teardown')
+        return
     ctx.check('C17.fault_isolated', bool(fin) and not tr.DX, why='main did not finish / a dispatch raised')
     for lab, e in ctx.events.items():
         s = ctx.snap(e)
@@ -219,6 +244,8 @@ def jobs(tier):
         Job('C17', 's1.wal', t_wal, dict(topo='forward', faults=False), witnesses=('payload round-trip',)),
         Job('C17', 's1.wal', t_wal, dict(topo='parallel', faults=False), witnesses=('payload round-trip',)),
         Job('C17', 's1.wal', t_wal, dict(topo='nested', faults=False, unserialisable=True), witnesses=('payload round-trip',)),
+        Job('C17', 's1.wal', t_wal, dict(topo='nested', faults=False, teardown=True), witnesses=('complete at teardown',)),
+        Job('C17', 's1.wal', t_wal, dict(topo='parallel', faults=False, teardown=True), witnesses=('complete at teardown',)),
     ]
     out += mk('C17', 'tree/fw_late_await', _with_wal(S.fw_late_await(), ['A', 'B']), witnesses=('wal written',))
     out += mk('C17', 'tree/fw_chain3', _with_wal(S.forward_chain(3, topo='chain', second_event=True), ['A', 'B', 'C']), witnesses=('wal written',))
